@@ -54,6 +54,9 @@ def gen_pipelines(rng, tier, npipes=None, big=False, pool=None, p_enc=0.4):
         if rng.chance(0.04):
             wspec['write_returns_none'] = True  # a sink that returns nothing
 
+        if rng.chance(0.05):
+            wspec['subclassed'] = True
+
         actors.append(wspec)
         r = {'id': rid, 'kind': 'reader', 'file': fname}
         k = rng.below(10)
